@@ -34,6 +34,20 @@ def plan_cases(tier, seed):
                                      rng.choice(["next_and_back", "table"]),
                                      extra={f: {"name": f"n_{f.lower()}", "vis": rng.choice(["", "pub", "pub(crate)"])} for f in render.DEFAULT_NAME})
             cfg["split"] = "each"
+            if i % 8 == 6:
+                # every feature decides on its own: default name, lower case, upper case, mixed; with / without visibility
+                # (anything the derive collects per feature in a hashed container then has several distinct elements)
+                def own(f):
+                    d = {}
+                    style = rng.choice(["default", "lower", "UPPER", "miXed"])
+                    if style != "default":
+                        d["name"] = {"lower": f"n_{f.lower()}", "UPPER": f"N_{f.upper()}", "miXed": f"n{f.capitalize()}_x"}[style]
+                    if rng.random() < 0.5:
+                        d["vis"] = rng.choice(["", "pub", "pub(crate)"])
+                    return d
+                cfg = corpus_rt.cfg_full(rng.choice(["match", "table", None]), rng.choice(["match", "table", None]), rng.choice(["match", "table", None]),
+                                         rng.choice(["next_and_back", "table", None]), extra={f: own(f) for f in render.DEFAULT_NAME})
+                cfg["split"] = rng.choice(["one", "each"])
         else:
             # sorted(..) needs a declaration that is sorted accordingly
             vs = corpus_rt.decorate(reals, r, rng, "ident", "asc", "dec")
